@@ -282,18 +282,32 @@ class Polygonal(Node):
             return np.stack([o, a, b], 1)
         return np.stack([o, a, a + b - o, b], 1)
 
+    def rings(self):
+        """hole rings of a polygon (constant), each (1, nv, 2)"""
+        return [np.asarray(h, dtype=np.float64)[None] for h in self.s.get("holes", [])] if self.kind == "polygon" else []
+
     def phi(self, P, env):
-        return poly_sdf(P, self.verts(env, len(P)))
+        f = poly_sdf(P, self.verts(env, len(P)))
+        for H in self.rings():
+            f = np.maximum(f, -poly_sdf(P, H))
+        return f
+
+    @staticmethod
+    def _area_len(V):
+        x, y = V[:, :, 0], V[:, :, 1]
+        return (0.5 * np.abs((x * np.roll(y, -1, 1) - np.roll(x, -1, 1) * y).sum(1)),
+                np.linalg.norm(np.roll(V, -1, 1) - V, axis=2).sum(1))
 
     def measure(self, env, N=1):
-        V = self.verts(env, N)
-        x, y = V[:, :, 0], V[:, :, 1]
-        A = 0.5 * np.abs((x * np.roll(y, -1, 1) - np.roll(x, -1, 1) * y).sum(1))
+        A = self._area_len(self.verts(env, N))[0]
+        for H in self.rings():
+            A = A - self._area_len(H)[0]
         return np.repeat(A, N) if len(A) == 1 and N > 1 else A
 
     def bmeasure(self, env, N=1):
-        V = self.verts(env, N)
-        per = np.linalg.norm(np.roll(V, -1, 1) - V, axis=2).sum(1)
+        per = self._area_len(self.verts(env, N))[1]
+        for H in self.rings():
+            per = per + self._area_len(H)[1]
         return np.repeat(per, N) if len(per) == 1 and N > 1 else per
 
     def bbox(self, env, N=1):
@@ -848,6 +862,10 @@ def build(s):
             return D.Triangle(Space({s["var"]: 2}), val_torch(s["origin"]), val_torch(s["c1"]), val_torch(s["c2"]))
         if p == "polygon":
             from torchphysics.problem.domains.domain2D.shapely_polygon import ShapelyPolygon
+            if s.get("holes"):
+                import shapely.geometry as sg
+                return ShapelyPolygon(Space({s["var"]: 2}), shapely_polygon=sg.Polygon([list(map(float, v)) for v in s["vertices"]],
+                                                                                     [[list(map(float, v)) for v in h] for h in s["holes"]]))
             return ShapelyPolygon(Space({s["var"]: 2}), vertices=[list(map(float, v)) for v in s["vertices"]])
         if p == "polyhedron":
             from torchphysics.problem.domains.domain3D.trimesh_polyhedron import TrimeshPolyhedron
@@ -947,6 +965,7 @@ def self_validate():
         {"prim": "parallelogram", "var": "x", "origin": [0, 0], "c1": [2, 0.5], "c2": [0.4, 1.5]},
         {"prim": "triangle", "var": "x", "origin": [0, 0], "c1": [0.4, 1.5], "c2": [2, 0.5]},
         {"prim": "polygon", "var": "x", "vertices": [[0, 0], [3, 0], [3, 2], [2, 2], [2, 1], [1, 1], [1, 2], [0, 2]]},
+        {"prim": "polygon", "var": "x", "vertices": [[0, 0], [4, 0], [4, 3], [0, 3]], "holes": [[[1, 1], [2, 1], [2, 2]], [[2.5, 0.5], [3.5, 0.5], [3.5, 2.5], [2.5, 2.5]]]},
         {"prim": "sphere", "var": "x", "center": [0, 0, 1], "radius": 0.8},
         {"prim": "polyhedron", "var": "x", "vertices": [[0, 0, 0], [2, 0, 0], [2, 1, 0], [0, 1, 0], [0, 0, 1.5], [2, 0, 1.5], [2, 1, 1.5], [0, 1, 1.5]],
          "faces": [[0, 1, 2], [0, 2, 3], [4, 6, 5], [4, 7, 6], [0, 5, 1], [0, 4, 5], [1, 6, 2], [1, 5, 6], [2, 7, 3], [2, 6, 7], [3, 4, 0], [3, 7, 4]]},
